@@ -212,9 +212,9 @@ let handle (line : string) : string =
       let m = mv_of_string f.(2) in
       let q = makemove true p m in
       let q0 = makemove false p m in
-      Printf.sprintf "%s pred=%s calc=%s nohash=%s valid=%s fen=%s spec=%s abs=%s inD=%s prem=%s" (dump_pos q) (string_of_n (predict_hash p m))
+      Printf.sprintf "%s pred=%s calc=%s nohash=%s valid=%s fen=%s spec=%s abs=%s inD=%s prem=%s kprem=%s" (dump_pos q) (string_of_n (predict_hash p m))
         (string_of_n (calculate_hash q)) (string_of_n q0.hash) (b01 (validate q = None)) (fen_of q)
-        (sstate_str (apply (abs_state p) (dec p m))) (sstate_str (abs_state q)) (b01 (in_D q)) (b01 (refines_b p m))
+        (sstate_str (apply (abs_state p) (dec p m))) (sstate_str (abs_state q)) (b01 (in_D q)) (b01 (refines_b p m)) (b01 (key_move_b p m))
   | "play" ->
     let p0 = parse_fen f.(1) in
     let toks = if Array.length f > 2 && f.(2) <> "" then String.split_on_char ' ' f.(2) else [] in
